@@ -17,6 +17,7 @@ def main(n, seed):
     dexe = lean.driver_path("drv_C08")
     rng = random.Random(seed)
     work = fresh_scratch("c08_pruned_%d" % os.getpid())
+    C08.QUIRK["on"] = C08.detect_quirk(hexe, work)
     models = bad = ops_n = blanks = premise = 0
     while models < n:
         kind = rng.choice(["pruned", "pruned", "random", "trailing-blank"])
